@@ -425,6 +425,12 @@ func (s *Sess) RemoveURR(req *ie.IE) ([]report.USAReport, error) {
 		return nil, err
 	}
 
+	if len(usars) == 0 {
+		// no final report will reach the response builder, which is where the
+		// URRInfo of a removed URR is dropped: drop it here
+		delete(s.URRIDs, id)
+	}
+
 	// indicates usage report being reported for a URR due to the removal of the URR
 	for i := range usars {
 		usars[i].USARTrigger.Flags |= report.USAR_TRIG_TERMR
